@@ -20,6 +20,7 @@ import (
 //
 //	srv delay cancelAt n (kind dur)* | result retAt k callAt*
 func c20ServeRetry(t *testing.T, out *vfh.Out, delay, cancelAt time.Duration, script []c20FnOut) {
+	out.Pending(fmt.Sprintf("c20ServeRetry delay=%v cancelAt=%v script=%+v", delay, cancelAt, script))
 	synctest.Test(t, func(t *testing.T) {
 		c := new(vfh.Toks).S("srv").I(int64(delay)).I(int64(cancelAt)).N(len(script))
 		for _, o := range script {
